@@ -81,7 +81,11 @@ def check_case(model, impl, text, stats, generations=3):
             import json
             a = json.loads(model.ask("SERSKEL", observe.enc("/"), observe.enc(text)))
             b = json.loads(model.ask("TEXTSKEL", observe.enc(d)))
-            if a is None:
+            if p.programtype["name"] == "tdm" and any(re.fullmatch(r"A[0-9]+", str(k_)) for k_ in p.variables):
+                # variables named like the arrays the serialiser declares: the names it picks depend on them; the model's theorem
+                # (wf_prog.wf_vars) excludes this case, the round trip above is checked all the same
+                stats["skeleton_skipped_names_like_hoisted"] = stats.get("skeleton_skipped_names_like_hoisted", 0) + 1
+            elif a is None:
                 stats["model_serialiser_undefined"] = stats.get("model_serialiser_undefined", 0) + 1
             elif a != b:
                 k = next((i for i, (x, y) in enumerate(zip(a, b or [])) if x != y), min(len(a), len(b or [])))
@@ -102,6 +106,27 @@ TRICKY = ["-({a}**2)", "-({a}**2)*{b}", "0 - {a}**2/3", "-({a}+{b})**2", "{b}**(
           "-(1e-7**q0)", "-(2.5e-5**q1)*q0", "-1.5e-8*{a}**2",
           "-((({a}+{b})*{a})**{b})", "-1*(({a}+1)**2)**{b}", "-(((q2+1)*q2)**0.5)", "0.5-((q2+1)*q2)**0.5", "-((2*({a}+{b}))**{a})*{b}", "-(sin(({a}+1)*{b})**2)",
           "{I} - 8e2j", "{I}*1j + 2", "2j*{E} - {I}", "({I} / 7 + 0) * (3J - 9)", "q1*1j - {I}"]
+
+
+def named_like_hoisted_text(rng):
+    """a tdm program whose own arrays are called like the names the serialiser invents for array arguments (A0, A1, ...), passed in
+    another order; and list values whose elements mention measured registers"""
+    if rng.random() < 0.5:
+        names = rng.sample(["A0", "A1", "A2", "A3", "A10"], rng.randint(2, 4))
+        lines = ["name t", "version 1.0", "type tdm (temporal_modes=%d)" % rng.randint(1, 3), ""]
+        for k, nm in enumerate(names):
+            lines.append("float array %s =\n    %s" % (nm, ", ".join(str(rng.randint(1, 9) + 10 * k) for _ in range(2))))
+        if rng.random() < 0.5:
+            lines.append("float array p0 =\n    0.5, 0.25")
+        for _ in range(rng.randint(1, 4)):
+            a, b = rng.sample(names, 2)
+            lines.append(rng.choice(["Sgate(%s, 0.5) | 0\nDgate(%s) | 1", "BSgate(%s, U=%s) | [0, 1]", "Kgate(U=%s, V=%s) | 1", "Ggate(%s) | 0\nGgate(%s, 1) | 1"]) % (a, b))
+        return "\n".join(lines) + "\n"
+    lines = ["name t", "version 1.0", "", "MeasureX | 0", "MeasureP | 1"]
+    for _ in range(rng.randint(1, 3)):
+        lines.append(rng.choice(["Kgate(phi=[q0, 1]) | 2", "Dgate(0.5, l=[2 * q1 + 1, q0, 3]) | 2", "Sgate(q0, l=[q0 - q1]) | 3", "Kgate(l=[q1, {a}], k={a} + 1) | 2",
+                                 "Rgate(k=[1, q0 * q1]) | 3"]))
+    return "\n".join(lines) + "\n"
 
 
 def tricky_text(rng):
@@ -141,7 +166,7 @@ def run(tier, seed):
                 res.extra["stopped_by_time_budget"] = True
                 break
             try:
-                text = tricky_text(rng) if i % 8 == 7 else gen_text(rng, i)
+                text = tricky_text(rng) if i % 8 == 7 else named_like_hoisted_text(rng) if i % 16 == 3 else gen_text(rng, i)
             except Exception:  # noqa: BLE001
                 continue
             try:
